@@ -185,6 +185,8 @@ func c11(p *core.Prog, r *core.Report) {
 	c11Exchanges(p, r)
 	c11Removal(p, r)
 	c11Dropped(p, r)
+	refusedConnIsClosed(p, r, "C11-R3")
+	channelTracksOnlyOpen(p, r, "C11-R3")
 	if f := mustFunc(p, r, "", "Peer", "addConnection"); f != nil {
 		peerListOnlyActive(p, r, f, "C11-R3")
 	}
